@@ -31,6 +31,7 @@ def stopping_plan(prop, ctx, with_t3=False, with_x=True):
     P.append(sweep.family_shards(prop, "U-E", j))
     P.append(sweep.family_shards(prop, "U-L", j))
     P.append(sweep.family_shards(prop, "U-K", j))
+    P.append(sweep.family_shards(prop, "U-RB", j))
     P.append(sweep.family_shards(prop, "U-M", 1000))
     P.append(sweep.family_shards(prop, "U-H", 1000))
     P.append(sweep.family_shards(prop, "U-W", 1000))
@@ -74,6 +75,7 @@ def all_games_plan(prop, ctx, thresholds=False):
     P.append(sweep.family_shards(prop, "U-D", j))
     P.append(sweep.family_shards(prop, "U-E", j))
     P.append(sweep.family_shards(prop, "U-K", j))
+    P.append(sweep.family_shards(prop, "U-RB", j))
     P.append(sweep.family_shards(prop, "U-W", 1000))
     P.append(sweep.family_shards(prop, "U-Z", j))
     P.append(sweep.family_shards(prop, "U-R", j))
